@@ -62,6 +62,7 @@ type rcCfg struct {
 	KeepAliveOpt     uint16         // mqtt.WithKeepAlive(seconds) connect option (the reconnecting client derives its ping interval from it)
 	CancelConnectCtx bool           // Connect gets a cancellable context which the application cancels as soon as Connect has returned (the usual `defer cancel()`)
 	GrantMax         *byte          // the broker grants at most this QoS in SUBACK (nil: what was requested)
+	SlowOnError      time.Duration  // the OnError callback takes this long (virtual time), e.g. slow logging
 	Reentrant        bool           // callbacks call back into the client: ConnState reads Done/Err/Stats of its BaseClient and publishes a QoS 0 note through the retrying client on Active; OnError publishes a QoS 0 alarm; the message handler re-registers itself and publishes a QoS 0 echo
 	ReuseBase        bool           // the dialer hands out one and the same *BaseClient every time, with a fresh Transport
 	RepeatPubRec     bool           // the broker repeats PUBREC for unreleased QoS 2 messages right behind CONNACK on reconnects
@@ -244,6 +245,9 @@ func rcExecuteInto(cfg *rcCfg, out **rcRun) *rcRun {
 		r.onErr = append(r.onErr, err)
 		r.onErrAt = append(r.onErrAt, vrt.Now())
 		r.ev("onerror")
+		if cfg.SlowOnError > 0 {
+			vrt.Sleep(int64(cfg.SlowOnError))
+		}
 		if cfg.Reentrant && r.rc != nil {
 			_ = r.rc.Stats()
 			if len(r.onErr) <= 2 { // the alarm itself may fail and be reported: no endless ping-pong
